@@ -53,6 +53,62 @@ Proof.
   - intros E. eapply (arr_passes_inv_ext_model n tri Hrange Hpairs HPM epsr fuel k); eauto.
 Qed.
 
+(* with the order on the reserved block *)
+Theorem phases123_inv_ord n tri :
+  (forall t, In t tri -> (t_i t < n)%nat /\ (t_j t < n)%nat) ->
+  NoDup (map fst tri) ->
+  (forall j, (j < n)%nat -> exists t, In t tri /\ t_j t = j) ->
+  has_PM n tri ->
+  forall epsr fuel k x y v ii, 0 <= epsr ->
+  let rows := rows_of n tri in
+  let mi := min_i n tri in
+  let x0 := x_init n mi in
+  let y0 := y_init n x0 in
+  let uv := reduction_transfer Fixed n rows (jflat_of rows) x0 (one_rows n mi) (repeat (Fin 0) n) (v_init n tri) in
+  match free_rows n mi with
+  | [] => Some (x0, y0, snd uv, free_rows n mi)
+  | _ => arr_passes k fuel (Fin 0) (Fin epsr) n rows (x0, y0, snd uv, free_rows n mi)
+  end = Some (x, y, v, ii) ->
+  InvE n rows x y v /\ Ord n rows y v /\ Pending n y ii.
+Proof.
+  intros Hrange Hpairs Hcols HPM epsr fuel k x y v ii Her. cbn zeta.
+  destruct (phase12_inv n tri Hrange Hcols) as [HI HP]. pose proof (Inv_Ord n (rows_of n tri) _ _ _ HI) as HO. apply Inv_InvE in HI.
+  destruct (free_rows n (min_i n tri)) as [|f0 fr] eqn:EF.
+  - intros E. inversion E; subst. split; auto.
+  - intros E. eapply (arr_passes_inv_ord n (rows_of n tri) (rows_fin n tri Hrange) (rows_nodup n tri Hpairs)
+                        (noblock_model n tri Hrange HPM) epsr fuel Her k); eauto.
+Qed.
+
+(* ---------------------------------------------------------------- the reserved block is FORCED
+   in every perfect matching sigma, the row y[j] of a reserved column j is matched to j: newest-first induction on the
+   order - the row of j lists only j and older reserved columns, and the older ones are already taken by their own rows. *)
+Theorem reserved_forced n tri x y v :
+  (forall t, In t tri -> (t_i t < n)%nat /\ (t_j t < n)%nat) ->
+  InvE n (rows_of n tri) x y v -> Ord n (rows_of n tri) y v ->
+  forall sigma, PM n tri sigma -> forall j, (j < n)%nat -> gete v j = NInf -> col sigma (getn y j n) = j.
+Proof.
+  intros Hrange [Lx [Ly [PVv [SL NY]]]] [l [ND [Mem OL]]] sigma PMs.
+  assert (Row : forall j, In j l -> (j < n)%nat /\ (getn y j n < n)%nat /\ getn x (getn y j n) n = j).
+  { intros j Hj. apply Mem in Hj as [Hj En]. destruct (SL j _ Hj eq_refl (NY j Hj En)) as [A [B _]]. auto. }
+  assert (Listed : forall i, (i < n)%nat -> exists c, In (col sigma i, c) (row (rows_of n tri) i)).
+  { intros i Hi. destruct PMs as [_ Ls]. specialize (Ls i Hi).
+    destruct (cost tri i (col sigma i)) as [z|] eqn:Ec; [|congruence].
+    destruct (cost_in _ _ _ _ Ec) as [t [Hin [Ei [Ej Ecz]]]].
+    pose proof (in_row_of_tri n tri Hrange t Hin) as Hr. rewrite Ei, Ej in Hr. eauto. }
+  assert (All : forall j, In j l -> col sigma (getn y j n) = j).
+  { clear Mem. induction l as [|j older IH]; [intros ? []|].
+    apply NoDup_cons_iff in ND as [Nin ND']. destruct OL as [Cand OL'].
+    assert (IHo : forall j0, In j0 older -> col sigma (getn y j0 n) = j0) by (apply IH; auto; intros; apply Row; right; auto).
+    intros j0 [<-|Hj0]; [|apply IHo; auto].
+    destruct (Row j (or_introl eq_refl)) as [Hj [Hy Hx]].
+    destruct (Listed _ Hy) as [c Hc]. destruct (Cand _ _ Hc) as [E|Ho]; [auto|]. exfalso.
+    destruct (Row _ (or_intror Ho)) as [Hj0 [Hy0 Hx0]].
+    pose proof (IHo _ Ho) as E0.
+    assert (Ey : getn y (col sigma (getn y j n)) n = getn y j n) by (eapply (pm_injective n tri sigma); eauto).
+    apply Nin. rewrite <- Hx, <- Ey, Hx0. exact Ho. }
+  intros j Hj En. apply All. apply Mem. auto.
+Qed.
+
 (* a 2x2 input with a single-candidate row: the hypotheses hold *)
 Example ext_example :
   let tri := [T 0 0 3; T 1 0 1; T 1 1 2] in
